@@ -21,9 +21,6 @@ set_option linter.unusedSimpArgs false
 
 variable {K : Type} [Field K] [DecidableEq K] [LT K] [DecidableLT K]
 
-/-- `axpby(a, x, 0, y)` never reads `y` -/
-theorem axpby_b0_indep (a : K) (x y y' : Vec K) : axpby a x 0 y = axpby a x 0 y' := by simp [axpby]
-
 /-- what the rest of a restart cycle reads of the inner-loop state after `j` Arnoldi steps -/
 def RelIn (t t' : In K) : Prop :=
   t.j = t'.j ∧ t.iter = t'.iter ∧ t.innerRes = t'.innerRes ∧ t.w.h.s = t'.w.h.s ∧
